@@ -56,7 +56,7 @@ func checkC02(c *Check) {
 // a file could not be examined (a transient I/O error at start-up must not destroy a stored message).
 func c02CleanupOnlyWhenGone(c *Check) {
 	c.Rule("R9", "recovery / loading: a spool file is removed only on the edge where a sibling file does not exist (os.IsNotExist of that very error); any other error leaves everything in place", 3)
-	isRm := calling("~/" + queueRel + ".Queue.tryRemoveDanglingFile", "os.Remove", "os.RemoveAll", "~/" + queueRel + ".Queue.removeFromDisk")
+	isRm := calling("~/"+queueRel+".Queue.tryRemoveDanglingFile", "os.Remove", "os.RemoveAll", "~/"+queueRel+".Queue.removeFromDisk")
 	for _, fn := range []string{"readDiskQueue", "openMessage", "readMessageMeta"} {
 		r := c.In(queueRel, "Queue", fn)
 		if r == nil {
@@ -780,7 +780,6 @@ func c02Abort(c *Check) {
 		}
 	}
 }
-
 
 // lastOperand: the right-most operand of a `+` chain / the last argument of a Join-like call.
 func lastOperand(e ast.Expr) ast.Expr {
